@@ -457,7 +457,10 @@ func (c *Client) TwoPhaseCommit(ctx context.Context, primary []byte, mutations [
 	}
 	primaryID := primaryRegion.meta.GetId()
 	primaryMutations, ok := grouped[primaryID]
-	if !ok || len(primaryMutations) == 0 {
+	// The primary's lock and commit record decide the transaction for every reader that
+	// meets one of its secondaries: the primary has to be one of the keys written, not just
+	// a key of a region that receives some mutation.
+	if !ok || !mutationHasPrimary(primaryMutations, primary) {
 		return fmt.Errorf("client: primary key %q missing from mutations", primary)
 	}
 	if err := c.prewriteRegion(ctx, primaryID, primary, startVersion, lockTTL, primaryMutations); err != nil {
